@@ -339,6 +339,7 @@ def context_work(payload):
 
 
 def run(tier, seed, only=None):
+    pool.set_recycle(20)
     rep = Report(
         PID, tier, seed, "exploration",
         rule="A1: NumberError operators {+,-,*,/,**,neg,log,exp,apply,cal_err} x operand patterns {(u,u),(u,scalar),(scalar,u)} x values {0.5,2,7.5,-3} x errors {0.1,0.25} (reflected forms the class "
